@@ -116,6 +116,8 @@ NEAR_ONE = [F(1, 2**17), F(1, 2**18), F(1, 2**19), F(1, 2**20), F(1, 10**6), F(8
 
 
 def gen_weights(rng, n):
+    if n == 0:
+        return []
     r = rng.random()
     if r < .45:     # normalised, k/8 with zeros
         cuts = sorted(rng.randint(0, 8) for _ in range(n - 1))
@@ -124,6 +126,11 @@ def gen_weights(rng, n):
             j = rng.choice([k for k in range(n) if parts[k] > 0])
             parts[j] += rng.choice(NEAR_ONE) * rng.choice([1, -1])
         return [str(p) for p in parts]
+    if r < .52:     # large magnitudes (an unnormalised measure), integral: also passed as ints
+        return [rng.choice(["0", "1", "1000", "4096", "250000", "1048576", "3"]) for _ in range(n)]
+    if r < .60:     # probabilities next to 0 and 1: 2^-30, 1 - 2^-20, 1 - 2^-30
+        ws = [rng.choice(["1/1073741824", "1048575/1048576", "1073741823/1073741824", "0", "1/1048576"]) for _ in range(n)]
+        return ws
     ws = [rng.choice(DYADIC) for _ in range(n)]
     for i in range(n):
         if rng.random() < .2:
@@ -133,9 +140,19 @@ def gen_weights(rng, n):
     return ws
 
 
-def gen_dist(rng, kind=None, nmax=5):
+def gen_dist(rng, kind=None, nmax=5, p_empty=0.0):
     kind = kind or rng.choice(KINDS)
     n = 1 if kind == "det" else rng.choice([1, 2, 2, 3, 3, 4, nmax])
+    if kind in ("dict", "pairs", "uniform") and rng.random() < p_empty:
+        n = 0       # empty support: DictDistribution({}), from_pairs([]), UniformDistribution([])
+    if kind == "uniform" and n and rng.random() < .2:
+        # other sequence types: range(n) (events 0..n-1) or a str (events = its characters)
+        if rng.random() < .5:
+            n = min(n, 3)
+            return {"kind": kind, "events": [enc(v) for v in (0, 1, 2)[:n]], "seq": "range",
+                    "classmethod": rng.random() < .3}
+        chars = rng.sample(["a", "b"], min(n, 2))
+        return {"kind": kind, "events": [enc(c) for c in chars], "seq": "str", "classmethod": rng.random() < .3}
     distinct = kind in ("uniform", "table") or rng.random() < .6
     if distinct:
         ids = rng.sample(range(NID), n)
@@ -167,10 +184,29 @@ def gen_dist(rng, kind=None, nmax=5):
         if distinct and n >= 2 and rng.random() < .12:            # -inf scores (accepted by the constructor)
             for j in rng.sample(range(n), rng.randint(1, n - 1)):
                 spec["weights"][j] = "-inf"
+    if kind in ("dict", "pairs", "table") and n and all(F(w).denominator == 1 for w in spec["weights"]) \
+            and rng.random() < .5:
+        spec["num"] = "int"         # int weights instead of floats (0 and 1 exactly, large counts)
+    allstr = all(isinstance(UNIVERSE[p_], str) for p_ in pos)
+    if kind == "dict":
+        spec["rep"] = rng.choice(["dict", "dict", "pairs_list", "copy"] + (["kwargs"] * 3 if allstr else []))
+    if kind == "pairs":
+        spec["rep"] = rng.choice(["list", "generator", "tuple"])
+    if kind == "softmax":
+        spec["rep"] = rng.choice(["dict", "dict", "pairs_list"] + (["kwargs"] * 3 if allstr else []))
     if kind == "uniform":
         spec["seq"] = rng.choice(["list", "tuple"])
+        r = rng.random()
+        if r < .2:
+            spec["classmethod"] = True
+        elif r < .4:
+            spec["check_unique"] = False
+    if kind == "det":
+        spec["classmethod"] = rng.random() < .3
     if kind == "table":
-        spec["via_row"] = rng.random() < .5
+        spec["via_row"] = rng.choice([False, False, "2d", "2d", "3d", "3d_tuple"])
+        spec["dom"] = rng.choice(["list", "tuple"])
+        spec["touch"] = rng.random() < .5
     return spec
 
 
@@ -178,9 +214,35 @@ def spec_ids(spec):
     return [eid(e) for e in spec["events"]]
 
 
+NUMVAL = {ID[1]: "1", ID[0]: "0", ID[2]: "2", ID[-1]: "-1", ID[2.5]: "5/2"}
+COLLIDING = [ps for ps in POS_OF_ID.values() if len(ps) >= 2]
+
+
+def gen_u(rng, ws, tot):
+    """a value for rng.random(): 0, 1-2^-53, exactly on / 2^-40 next to a cumulative boundary, dyadic, 53-bit"""
+    r = rng.random()
+    if r < .15:
+        return F(0)
+    if r < .25:
+        return 1 - F(1, 2**53)
+    if r < .55 and tot > 0:
+        c = sum(ws[:rng.randint(0, len(ws))]) / tot
+        if c < 1 and c.denominator & (c.denominator - 1) == 0:
+            if tot == 1 and rng.random() < .5:      # u*total is exact: a hair below / above the boundary
+                c2 = c + rng.choice([1, -1]) * F(1, 2**40)
+                if 0 <= c2 < 1:
+                    return c2
+            return c
+        return F(rng.randrange(16), 16)
+    if r < .8:
+        k = rng.choice([2, 3, 4, 6, 10])
+        return F(rng.randrange(2**k), 2**k)
+    return F(rng.getrandbits(53), 2**53)
+
+
 def gen_case(rng):
-    d1, d2 = gen_dist(rng), gen_dist(rng)
-    if rng.random() < .5:       # make overlapping supports likely
+    d1, d2 = gen_dist(rng, p_empty=.015), gen_dist(rng, p_empty=.05)
+    if rng.random() < .5 and d1["events"]:       # make overlapping supports likely
         d2 = gen_dist(rng, kind=rng.choice(["dict", "pairs", "softmax"]))
         take = d1["events"][:rng.randint(1, len(d1["events"]))]
         extra = [enc(UNIVERSE[rng.randrange(len(UNIVERSE))]) for _ in range(rng.randint(0, 2))]
@@ -191,18 +253,36 @@ def gen_case(rng):
             d2["weights"] = [str(F(rng.randint(-8, 8), 4)) for _ in ev]
         else:
             d2["weights"] = gen_weights(rng, len(ev))
+        for k_ in ("num", "rep"):
+            d2.pop(k_, None)
     targets = rng.sample(range(NID), rng.randint(1, 3))
     proj_ids = [rng.choice(targets) if rng.random() < .8 else rng.randrange(NID) for _ in range(NID)]
-    boolean = rng.random() < .25
-    if boolean:
+    lm = rng.random()
+    if lm < .2:     # predicate returning bool
         like_ids = [["bool", rng.random() < .6] for _ in range(NID)]
-    else:
-        like_ids = [["num", "0" if rng.random() < .3 else rng.choice(DYADIC[1:])] for _ in range(NID)]
+    elif lm < .3:   # int likelihoods 0 / 1 / 2
+        like_ids = [["int", rng.choice(["0", "1", "1", "2"])] for _ in range(NID)]
+    else:           # float (or numpy float64) likelihoods with zeros and values next to 0
+        ty = "np" if lm < .4 else "num"
+        like_ids = [[ty, "0" if rng.random() < .3 else rng.choice(DYADIC[1:] + ["1/1073741824", "1000"])] for _ in range(NID)]
     if rng.random() < .04:
         like_ids = [["num", "0"] for _ in range(NID)]
-    real_ids = [str(F(rng.randint(-32, 32), 4)) for _ in range(NID)]
+    big = rng.random() < .15
+    real_ids = [str(F(rng.randint(-32, 32), 4) * (10**6 if big else 1)) for _ in range(NID)]
     sup1 = sorted(set(spec_ids(d1)))
-    kern = {i: gen_dist(rng, nmax=3) for i in sup1}
+    default_real = bool(sup1) and all(i in NUMVAL for i in sup1) and rng.random() < .6
+    if default_real:    # expectation() with the default real_function (identity) on numeric events
+        for i in sup1:
+            real_ids[i] = NUMVAL[i]
+    kern = {i: gen_dist(rng, nmax=3, p_empty=.05) for i in sup1}
+    shadow = None
+    if rng.random() < .6:       # same class, same events, other numbers: built and used before d1
+        shadow = dict(d1)
+        if d1["kind"] in ("dict", "pairs", "table"):
+            shadow["weights"] = gen_weights(rng, len(d1["events"]))
+            shadow.pop("num", None)
+        elif d1["kind"] == "softmax":
+            shadow["weights"] = [str(F(rng.randint(-8, 8), 4)) for _ in d1["events"]]
     # scripted draws
     script = []
     n1 = len(d1["events"])
@@ -210,22 +290,15 @@ def gen_case(rng):
     tot = sum(ws)
     for _ in range(6):
         if d1["kind"] == "uniform":
-            script.append(["i", rng.randrange(n1)])
-            continue
-        r = rng.random()
-        if r < .15:
-            u = F(0)
-        elif r < .25:
-            u = 1 - F(1, 2**53)
-        elif r < .5 and tot > 0:
-            c = sum(ws[:rng.randint(0, len(ws))]) / tot     # exactly on a cumulative boundary
-            u = c if (c < 1 and c.denominator & (c.denominator - 1) == 0) else F(rng.randrange(16), 16)
-        elif r < .8:
-            k = rng.choice([2, 3, 4, 6, 10])
-            u = F(rng.randrange(2**k), 2**k)
+            script.append(["i", rng.randrange(n1) if n1 else 0])
         else:
-            u = F(rng.getrandbits(53), 2**53)
-        script.append(["u", str(u)])
+            script.append(["u", str(gen_u(rng, ws, tot))])
+    gdraws = [str(gen_u(rng, ws, tot)) for _ in range(3)]
+    a = rng.choice(["0", "1/4", "1/2", "1/2", "3/4", "1", "2"])
+    b = rng.choice(["0", "1/4", "1/2", "1/2", "3/4", "1", "3"])
+    ab_int = F(a).denominator == 1 and F(b).denominator == 1 and rng.random() < .7
+    neg = rng.choice(COLLIDING)
+    neg = rng.sample(neg, 2)
     return {
         "universe": [enc(v) for v in UNIVERSE],
         "d1": d1, "d2": d2,
@@ -233,9 +306,9 @@ def gen_case(rng):
         "like": [[enc(v), like_ids[ID[v]]] for v in UNIVERSE],
         "real": [[enc(v), real_ids[ID[v]]] for v in UNIVERSE],
         "kern": [[enc(UNIVERSE[POS_OF_ID[i][0]]), kern[i]] for i in sup1],
-        "a": rng.choice(["0", "1/4", "1/2", "1/2", "3/4", "1", "2"]),
-        "b": rng.choice(["1/4", "1/2", "1/2", "3/4", "1", "3"]),
-        "script": script, "seed": rng.randrange(2**32), "nseeded": 6,
+        "a": a, "b": b, "ab_int": ab_int, "default_real": default_real, "shadow": shadow,
+        "gdraws": gdraws, "neg": [enc(UNIVERSE[neg[0]]), enc(UNIVERSE[neg[1]])],
+        "script": script, "seed": rng.choice([0, 0, 1, rng.randrange(2**32), rng.randrange(2**32)]), "nseeded": 6,
         "_proj_ids": proj_ids, "_like": like_ids, "_real": real_ids,
     }
 
@@ -261,7 +334,7 @@ Definition view (k : @kind Q nat) (probes : list nat) :=
   (od d, map (fun e => oq (@kprob Q NumQ nat E k e)) probes, oq (@mass Q NumQ nat d),
    @is_normalized Q NumQ nat (1#100000) (1#100000000) d).
 Definition run_case (k1 k2 : @kind Q nat) (probes f : list nat) (kern : list (list (nat * Q)))
-    (w g : list Q) (a b : Q) (es : option (list nat)) (draws : list (Q * nat)) :=
+    (w g : list Q) (a b : Q) (es : option (list nat)) (draws : list (Q * nat)) (gus : list Q) :=
   let d1 := it k1 in let d2 := it k2 in
   let es' := match es with Some l => l | None => @common Q nat E d1 d2 end in
   let ca := @condition_acc Q NumQ nat E (fq w) d1 in
@@ -276,7 +349,11 @@ Definition run_case (k1 k2 : @kind Q nat) (probes f : list nat) (kern : list (li
     oq (@psum Q NumQ (map (fun e => Qred (@prob Q NumQ nat E d1 e * @prob Q NumQ nat E d2 e)) es'))),
    oq (@expectation Q NumQ nat (fq g) d1),
    od (@normalize Q NumQ nat E d1),
-   map (fun ui => @ksample Q NumQ nat E k1 (fst ui) (snd ui)) draws).
+   map (fun ui => @ksample Q NumQ nat E k1 (fst ui) (snd ui)) draws,
+   map (@sample Q NumQ nat E d1) gus,
+   @is_normalized Q NumQ nat 0 (1#1024) d1,
+   od (@normalize Q NumQ nat E (@mix Q NumQ nat E (@scale Q NumQ nat E d1 a) (@scale Q NumQ nat E d2 b))),
+   od (@marginalize Q NumQ nat nat E (fn f) (@condition Q NumQ nat E (fq w) d1))).
 """
 
 
@@ -319,10 +396,10 @@ def case_term(case, res, draws):
     if isinstance(res["and"], list):
         es = "(Some %s)" % natlist([eid(e) for e, _ in res["and"]])
     dr = coqlist("(%s, %s)" % (q(u), nat(i)) for u, i in draws)
-    return "run_case %s %s %s %s %s %s %s %s %s %s %s" % (
+    return "run_case %s %s %s %s %s %s %s %s %s %s %s %s" % (
         k1, k2, natlist(range(NID)), natlist(case["_proj_ids"]), coqlist(kl),
         coqlist(q(x) for x in w), coqlist(q(x) for x in case["_real"]),
-        q(case["a"]), q(case["b"]), es, dr)
+        q(case["a"]), q(case["b"]), es, dr, coqlist(q(u) for u in case.get("gdraws", [])))
 
 
 # ---------------------------------------------------------------------------
@@ -441,12 +518,20 @@ def oracle(case, res):
             pass
     ex = res["expectation"]
     wantx = sum(g[x] * p for x, p in m1.items())
-    if not isinstance(ex, list) or not close(vlib.frac(ex), wantx, scale=8 * max(1, mass1)):
+    if isinstance(ex, (dict, str)) or not close(vlib.frac(ex), wantx, scale=sum(abs(g[x]) * p for x, p in m1.items())):
         bad["expectation"] = "expectation is not the probability-weighted sum"
     chk("normalize", {x: p / mass1 for x, p in m1.items()} if mass1 > 0 else {}, defined=mass1 > 0)
     # sampling: only events of positive probability
     if pos1 and mass1 > 0:
         for dr in res["draws"]:
+            if "error" in dr:
+                bad["sample"] = "sample raises %s on a distribution of positive mass" % dr["error"]
+            elif m1.get(eid(dr["event"]), 0) <= 0:
+                bad["sample"] = "sample returned an event of probability zero"
+        more = [d_ for d_ in res.get("gdraws", [])]
+        kd = res.get("kdraw") or {}
+        more += [{"event": e} for e in kd.get("events", [])] + ([kd] if "event" in kd else [])
+        for dr in more:
             if "error" in dr:
                 bad["sample"] = "sample raises %s on a distribution of positive mass" % dr["error"]
             elif m1.get(eid(dr["event"]), 0) <= 0:
@@ -610,7 +695,36 @@ def run(ctx):
            "table_prob_nonmember_tuple_anomalies": 0, "boundary_draws": 0, "float_boundary_ambiguous": 0,
            "scripted_draws": 0, "seeded_draws": 0, "single_support_shortcuts": 0,
            "colliding_key_dists": 0, "zero_entry_dists": 0, "unnormalised_dists": 0, "softmax_goals": 0,
-           "nearly_normalised_dists": 0, "softmax_wide_spread_max_not_first": 0, "softmax_neg_inf_scores": 0}
+           "nearly_normalised_dists": 0, "softmax_wide_spread_max_not_first": 0, "softmax_neg_inf_scores": 0,
+           "generic_draws": 0, "k_draws": 0, "near_boundary_draws": 0, "duplicate_event_constructions": 0,
+           "empty_dists": 0, "int_weight_dists": 0, "large_magnitude_dists": 0, "tiny_probability_dists": 0,
+           "falsy_event_dists": 0, "det_on_falsy_event": 0, "shadow_object_first": 0, "default_real_function": 0,
+           "int_scalars": 0, "seed_zero": 0, "and_with_zero_probability_entry": 0, "condition_all_rejected": 0,
+           "uniform_str_support_nonmember_probes": 0, "uniform_str_support_nonmember_anomalies": 0}
+    reps = {}
+    FALSY = {ID[v] for v in UNIVERSE if not v}
+
+    def tally(sp):
+        kinds_count[sp["kind"]] += 1
+        ids = spec_ids(sp)
+        tag = sp["kind"] + ":" + "/".join(str(sp[k]) for k in ("rep", "seq", "classmethod", "check_unique", "via_row", "dom", "touch", "num") if k in sp)
+        reps[tag] = reps.get(tag, 0) + 1
+        if not ids:
+            cnt["empty_dists"] += 1
+        if sp.get("num") == "int":
+            cnt["int_weight_dists"] += 1
+        if any(i in FALSY for i in ids):
+            cnt["falsy_event_dists"] += 1
+            if sp["kind"] == "det":
+                cnt["det_on_falsy_event"] += 1
+        if sp["kind"] in ("dict", "pairs", "table") and ids:
+            fw = [F(w) for w in sp["weights"]]
+            if 0 < abs(sum(fw) - 1) <= F(1, 10**5):
+                cnt["nearly_normalised_dists"] += 1
+            if any(w >= 1000 for w in fw):
+                cnt["large_magnitude_dists"] += 1
+            if any(0 < w <= F(1, 2**20) or 0 < 1 - w <= F(1, 2**20) for w in fw):
+                cnt["tiny_probability_dists"] += 1
     kinds_count = {k: 0 for k in KINDS}
     pair_count = {}
     terms, meta, sm_jobs = [], [], []
@@ -672,7 +786,7 @@ def run(ctx):
             continue
         for nm, other in (("d1", "d2"), ("d2", "d1")):
             sp = case[nm]
-            kinds_count[sp["kind"]] += 1
+            tally(sp)
             ids = spec_ids(sp)
             if len(set(ids)) < len(ids):
                 cnt["colliding_key_dists"] += 1
@@ -682,17 +796,17 @@ def run(ctx):
                     cnt["zero_entry_dists"] += 1
                 if sum(F(w) for w in sp["weights"]) != 1:
                     cnt["unnormalised_dists"] += 1
-                if 0 < abs(sum(F(w) for w in sp["weights"]) - 1) <= F(1, 10**5):
-                    cnt["nearly_normalised_dists"] += 1
             if sp["kind"] == "softmax" and isinstance(res[nm]["items"], list):
                 add_softmax(i, nm, sp, res[nm]["items"])
         for k, sp in case["kern"]:
-            kinds_count[sp["kind"]] += 1
-            if sp["kind"] in ("dict", "pairs", "table") and 0 < abs(sum(F(w) for w in sp["weights"]) - 1) <= F(1, 10**5):
-                cnt["nearly_normalised_dists"] += 1
+            tally(sp)
             it = dict((eid(a), b) for a, b in res["kern_items"]).get(eid(k))
             if sp["kind"] == "softmax" and isinstance(it, list):
                 add_softmax(i, "kern", sp, it)
+        cnt["shadow_object_first"] += bool(case.get("shadow"))
+        cnt["default_real_function"] += bool(case.get("default_real"))
+        cnt["int_scalars"] += bool(case.get("ab_int"))
+        cnt["seed_zero"] += case["seed"] == 0
         pk = case["d1"]["kind"] + "x" + case["d2"]["kind"]
         pair_count[pk] = pair_count.get(pk, 0) + 1
 
@@ -718,7 +832,8 @@ def run(ctx):
             continue
         try:
             (_, v1, v2, m_marg, m_chain, (m_cond, (m_kept, m_norm)), m_joint, m_mix, m_rmul,
-             (m_and, m_common, m_N), m_exp, m_normz, m_draws) = v
+             (m_and, m_common, m_N), m_exp, m_normz, m_draws, m_gdraws, m_isn2, m_c1, m_c2) = v
+            m_c1, m_c2 = unq_items(m_c1), unq_items(m_c2)
             v1 = (unq_items(v1[0]), [unq(x) for x in v1[1]], unq(v1[2]), v1[3])
             v2 = (unq_items(v2[0]), [unq(x) for x in v2[1]], unq(v2[2]), v2[3])
             m_marg, m_chain, m_cond, m_kept = map(unq_items, (m_marg, m_chain, m_cond, m_kept))
@@ -749,6 +864,13 @@ def run(ctx):
                     if isinstance(pv, dict) or isinstance(pv, str) or vlib.frac(pv) != 0:
                         cnt["table_prob_nonmember_tuple_anomalies"] += 1
                     continue
+                if case[nm]["kind"] == "uniform" and case[nm].get("seq") == "str" and u_id not in member:
+                    # a str support answers `e in support` with Python's substring test: non-member probes
+                    # raise TypeError (non-str) or match substrings ("" and "ab" in "ab"): observed, not gated
+                    cnt["uniform_str_support_nonmember_probes"] += 1
+                    if isinstance(pv, (dict, str)) or vlib.frac(pv) != 0:
+                        cnt["uniform_str_support_nonmember_anomalies"] += 1
+                    continue
                 if isinstance(pv, dict):
                     problems[nm + ".prob"] = "prob(%r) raises %s" % (UNIVERSE[e_id_pos], pv["error"])
                 elif isinstance(pv, str) or not close(vlib.frac(pv), pm):
@@ -777,6 +899,10 @@ def run(ctx):
                 problems["condition"] = "no event of positive weight: expected the empty distribution"
         else:
             cnt["out_of_quantifier"] += 1
+        if m_norm == 0 and not m_kept:
+            cnt["condition_all_rejected"] += 1
+        if m_N > 0 and any(p == 0 for _, p in m_and):
+            cnt["and_with_zero_probability_entry"] += 1
         if m_N > 0:
             c = cmp_items(res["and"], m_and, stats)
             if c:
@@ -786,7 +912,8 @@ def run(ctx):
         else:
             cnt["out_of_quantifier"] += 1
         ex = res["expectation"]
-        if isinstance(ex, dict) or isinstance(ex, str) or not close(vlib.frac(ex), m_exp, scale=8 * max(1, mass1)):
+        gsc = sum(abs(F(case["_real"][x])) * p for x, p in items1)
+        if isinstance(ex, dict) or isinstance(ex, str) or not close(vlib.frac(ex), m_exp, scale=gsc):
             problems["expectation"] = "expectation: msdm %s model %s" % (ex, m_exp)
         if mass1 > 0:
             c = cmp_items(res["normalize"], m_normz, stats)
@@ -835,13 +962,95 @@ def run(ctx):
             if acc > 0 and any(u * acc == c for c in cum[:-1]):
                 cnt["boundary_draws"] += 1
             if eid(pd["event"]) != md[1]:
-                if floaty and acc > 0 and any(abs(u * acc - c) <= F(1, 10**12) for c in cum):
+                inexact = floaty or F(float(u) * float(acc)) != u * acc     # u*total is rounded in floats
+                if inexact and acc > 0 and any(abs(u * acc - c) <= F(1, 10**12) * max(1, acc) for c in cum):
                     cnt["float_boundary_ambiguous"] += 1
                     continue
                 problems["sample"] = "draw %d (u=%s, index=%d): msdm %r, model event id %s" % (j, float(u), ix, pd["event"], md[1])
             elif mass1 > 0 and all(p >= 0 for _, p in items1) and probs1[md[1]] <= 0:
                 problems["sample"] = "sampled event id %s has probability zero" % md[1]
         nops += 1
+
+        # ---- the generic FiniteDistribution.sample on every kind, k = 1 and k = 3 ----
+        gus = [F(u) for u in case.get("gdraws", [])]
+        single = len(items1) == 1
+        for j, (pd, md, u) in enumerate(zip(res.get("gdraws", []), m_gdraws, gus)):
+            cnt["generic_draws"] += 1
+            if "error" in pd:
+                if md is not None:
+                    problems["sample-generic"] = "FiniteDistribution.sample raises %s, model returns event id %s" % (pd["error"], md[1])
+                continue
+            if md is None:
+                problems["sample-generic"] = "FiniteDistribution.sample returned %r, model says random.choices raises" % (pd["event"],)
+                continue
+            if acc > 0 and any(u * acc == c for c in cum[:-1]):
+                cnt["boundary_draws"] += 1
+            if acc > 0 and not single and any(0 < abs(u * acc - c) <= F(1, 2**39) * acc for c in cum[:-1]):
+                cnt["near_boundary_draws"] += 1
+            if pd.get("used", 0) != (0 if single else 1):
+                problems["sample-generic"] = "generator consumption %s (one-point support: %s)" % (pd.get("used"), single)
+            if eid(pd["event"]) != md[1]:
+                inexact = floaty or F(float(u) * float(acc)) != u * acc
+                if inexact and acc > 0 and any(abs(u * acc - c) <= F(1, 10**12) * max(1, acc) for c in cum):
+                    cnt["float_boundary_ambiguous"] += 1
+                    continue
+                problems["sample-generic"] = "generic draw %d (u=%s): msdm %r, model event id %s" % (j, float(u), pd["event"], md[1])
+        kd = res.get("kdraw")
+        if kd is not None and gus:
+            cnt["k_draws"] += 1
+            want = [md[1] if md is not None else None for md in m_gdraws]
+            if "error" in kd:
+                if all(w is not None for w in want):
+                    problems["sample-k"] = "sample(k=%d) raises %s" % (len(gus), kd["error"])
+            elif single:
+                if "event" not in kd or eid(kd["event"]) != items1[0][0] or kd["used"] != 0:
+                    problems["sample-k"] = "one-point support with k > 1: expected the bare event without consuming randomness"
+            elif None in want:
+                problems["sample-k"] = "sample(k) returned although random.choices must raise"
+            elif "events" not in kd or kd["used"] != len(gus):
+                problems["sample-k"] = "sample(k=%d) did not return a list from %d draws" % (len(gus), len(gus))
+            else:
+                got = [eid(e) for e in kd["events"]]
+                amb = False
+                for g_, w_, u in zip(got, want, gus):
+                    if g_ != w_:
+                        inexact = floaty or F(float(u) * float(acc)) != u * acc
+                        if inexact and any(abs(u * acc - c) <= F(1, 10**12) * max(1, acc) for c in cum):
+                            amb = True
+                        else:
+                            problems["sample-k"] = "sample(k=%d): msdm ids %s, model %s" % (len(gus), got, want)
+                if amb:
+                    cnt["float_boundary_ambiguous"] += 1
+        nops += 2
+
+        # ---- second-order uses of the same objects ----
+        r2 = res.get("isnorm_custom")
+        if r2 is not None and abs(abs(mass1 - 1) - F(1, 1024)) > F(1, 10**9):
+            if r2 != m_isn2:
+                problems["d1.is_normalized(rtol=0, atol=2^-10)"] = "msdm %s model %s" % (r2, m_isn2)
+        if sum(p for _, p in m_mix) > 0:
+            c = cmp_items(res["compose_mix_normalize"], m_c1, stats)
+            if c:
+                problems["compose:(a*d1|b*d2).normalize()"] = c
+        else:
+            cnt["out_of_quantifier"] += 1
+        if m_norm > 0 or not m_kept:
+            c = cmp_items(res["compose_condition_marginalize"], m_c2, stats)
+            if c:
+                problems["compose:condition.marginalize"] = c
+        if res.get("repeat_ok") is not True:
+            problems["reuse"] = "asking the same object again gave a different answer: %s" % (res.get("repeat_ok"),)
+        for nm in ("d1", "d2"):
+            if res["items_after"][nm] != res[nm]["items"]:
+                problems["reuse"] = "%s was changed by the operations applied to it" % nm
+        ng = res.get("neg")
+        if ng:
+            cnt["duplicate_event_constructions"] += 1
+            if not (isinstance(ng["uniform"], dict) and ng["uniform"]["error"].startswith("AssertionError")):
+                problems["assumption:uniform-accepts-duplicate-events"] = str(ng["uniform"])
+            if not (isinstance(ng["table"], dict) and ng["table"]["error"].startswith("ValueError")):
+                problems["assumption:table-accepts-duplicate-events"] = str(ng["table"])
+        nops += 5
 
         if problems:
             why = oracle(case, res)
@@ -870,7 +1079,7 @@ def run(ctx):
                 "numeric with zeros or boolean, scripted draws incl. u = 0, 1-2^-53 and exact cumulative boundaries, 6 seeded draws; "
                 "distinct = structural hash of (d1, d2, functions); non-trivial = every generated case (>= 1 entry, all operations run)" % (len(UNIVERSE), NID),
         "samples": [{"case": {k: v for k, v in cases[0].items() if k != "universe"}, "impl": impl[0]}] if cases else [],
-        "cases": len(cases), "distributions_by_kind": kinds_count, "kind_pairs": pair_count,
+        "cases": len(cases), "distributions_by_kind": kinds_count, "kind_pairs": pair_count, "representations": reps,
         "probabilities_bit_exact": stats["exact"], "probabilities_within_tolerance": stats["inexact"],
         "order_drift": stats["order_drift"], "tolerance": str(TOL), "timing": timing,
         "extra_obligations": cnt["softmax_goals"], "extra_discharged": cnt["softmax_goals"] - len(sm_failed),
